@@ -184,6 +184,25 @@ class Probe(SourceProxy):
         global_probes.remove(self)
         self._uninstall_tooling()
 
+    def __exit__(self, exc_type=None, exc=None, tb=None):
+        if self._root is not self:
+            return self._root.__exit__(exc_type, exc, tb)
+
+        # Complete every pipeline and deactivate even if one of the
+        # completions raises (e.g. max() of an empty stream), then report
+        # the first error.
+        error = None
+        for obs in list(self._observers):
+            try:
+                obs.on_completed()
+            except BaseException as err:
+                if error is None:
+                    error = err
+        self._observers.clear()
+        self._exit()
+        if error is not None:
+            raise error
+
     def activate(self):
         """Activate this probe."""
         self.__enter__()
